@@ -264,9 +264,11 @@ func c12All(tier string) []Scenario {
 	with(c12CSVScenarios(2), func(s *Scenario) string { return "U" })
 	sc = append(sc, c12WriteVisible("P2M1")...)
 	with(c12BigScenarios(), func(s *Scenario) string { return "D2M1" })
-	with(c12Scenarios(4, 2), func(s *Scenario) string { return "D2M1" })
-	with(c12Scenarios(3, 2), func(s *Scenario) string { return "P2M2" })
-	with(c12Scenarios(2, 3), func(s *Scenario) string { return "P2M2" })
+	with(c12Scenarios(4, 2), func(s *Scenario) string { return "D3M1" })
+	// three records, and three workers: still every interleaving (happens-before pruning keeps these finite
+	// and, measured, cheaper than a preemption bound of 2, whose budget-indexed cache prunes less)
+	with(c12Scenarios(3, 2), func(s *Scenario) string { return "U" })
+	with(c12Scenarios(2, 3), func(s *Scenario) string { return "U" })
 	with(c12Scenarios(3, 3), func(s *Scenario) string {
 		if c12SmallFamilies[s.Family] {
 			return "P2M2"
@@ -304,7 +306,7 @@ func init() {
 		Plan: func(tier string) ([]string, *engine.JobResult) {
 			depth := 1
 			if tier == "thorough" {
-				depth = 2
+				depth = 3
 			}
 			jobs, pre := planSched(get(tier), depth, c12Judge)
 			for i := range get(tier) {
